@@ -96,3 +96,11 @@ Theorem C17_enums_cover_supported_values :
      (["deb"; "signature"; "type"], ["origin"; "maint"; "archive"]);
      (["version_schema"], ["semver"; "none"])] = true.
 Proof. vm_compute. reflexivity. Qed.
+
+(* the emitted and the published schema constrain documents only with keywords the Gallina validator understands:
+   a conditional, negated or combined sub-schema (if/then/else, not, allOf, oneOf, const, pattern ...) would be a
+   constraint none of the statements above look at *)
+Theorem C17_schema_uses_only_understood_keywords :
+  foreign_keywords schema_emitted = [] /\ foreign_keywords schema_published = [].
+Proof. vm_compute. split; reflexivity. Qed.
+Print Assumptions C17_schema_uses_only_understood_keywords.
